@@ -39,17 +39,22 @@ def cin(c):
     return c
 
 
+def _twice(k):
+    return 2.0 * k
+
+
 def plaw(s, k, n):
     return k * s**n
 
 
-def build(net, n1, n2, pars):
-    from mxlpy import Model
+def build(net, n1, n2, pars, ia=False):
+    from mxlpy import InitialAssignment, Model
 
     m = Model()
     c, k1, k2 = pars
     if net == "chain":
-        m.add_variables({"x": 1.0, "y": 1.0})
+        # with ia: x starts at 2*k1 (an initial assignment over a parameter that is also scanned)
+        m.add_variables({"x": InitialAssignment(fn=_twice, args=["k1"]) if ia else 1.0, "y": 1.0})
         m.add_parameters({"c": c, "k1": k1, "k2": k2, "n1": n1, "n2": n2})
         m.add_reaction("v0", cin, args=["c"], stoichiometry={"x": 1})
         m.add_reaction("v1", plaw, args=["x", "k1", "n1"], stoichiometry={"x": -1, "y": 1})
@@ -75,6 +80,11 @@ def generate(tier):
                 for norm in (True, False):
                     cases.append({"routine": "variable_elasticities", "net": net, "n1": n1, "n2": n2, "state": list(state), "pars": list(pars), "normalized": norm})
                     cases.append({"routine": "parameter_elasticities", "net": net, "n1": n1, "n2": n2, "state": list(state), "pars": list(pars), "normalized": norm})
+    # elasticities at the model's own initial state (no `variables=`), incl. a start value defined by an
+    # initial assignment over a scanned parameter: the state is fixed, only the parameter is displaced
+    for n1, n2, pars, norm, ia in it.product(ORDERS, ORDERS, par_grid[:2] if tier == "quick" else par_grid[::4], (True, False), (False, True)):
+        for routine in ("variable_elasticities", "parameter_elasticities"):
+            cases.append({"routine": routine, "net": "chain", "n1": n1, "n2": n2, "state": None, "pars": list(pars), "normalized": norm, "ia": ia})
     rc_orders = [(1.0, 1.0), (2.0, 0.5), (0.5, 2.0)] if tier == "quick" else list(it.product(ORDERS, ORDERS))
     rc_pars = par_grid[:2] if tier == "quick" else par_grid[::3]
     for net, (n1, n2), pars, norm, start in it.product(nets, rc_orders, rc_pars, (True, False), ("default", "supplied")):
@@ -93,7 +103,7 @@ def _close(a, b, tol):
 
 def snapshot(m):
     return ({k: float(v) for k, v in m.get_parameter_values().items()}, {k: float(v) for k, v in m.get_initial_conditions().items()},
-            {k: float(v.initial_value) for k, v in m.get_raw_variables().items()})
+            {k: (float(v.initial_value) if isinstance(v.initial_value, (int, float)) else repr(v.initial_value.args)) for k, v in m.get_raw_variables().items()})
 
 
 def check(case):
@@ -102,7 +112,7 @@ def check(case):
     from mxlpy import mca
 
     warnings.simplefilter("ignore")
-    m = build(case["net"], case["n1"], case["n2"], case["pars"])
+    m = build(case["net"], case["n1"], case["n2"], case["pars"], ia=bool(case.get("ia")))
     c, k1, k2 = case["pars"]
     n1, n2 = case["n1"], case["n2"]
     txt = f"{case}"
@@ -112,7 +122,12 @@ def check(case):
     try:
         if rt in ("variable_elasticities", "parameter_elasticities"):
             names = m.get_variable_names()
-            st = dict(zip(names, (case["state"] + [1.5])[: len(names)], strict=True))
+            if case["state"] is None:
+                st = {"x": 2.0 * k1 if case.get("ia") else 1.0, "y": 1.0}  # the model's initial state
+                kw_state = {}
+            else:
+                st = dict(zip(names, (case["state"] + [1.5])[: len(names)], strict=True))
+                kw_state = {"variables": st}
             x, y = st["x"], st["y"]
             kb = 0.75
             rates = {"v0": c, "v1": k1 * x**n1, "v2": k2 * y**n2}
@@ -120,7 +135,7 @@ def check(case):
                 z = st["z"]
                 rates.update({"v1b": kb * x**n1, "v3": k2 * z**n2})
             if rt == "variable_elasticities":
-                got = mca.variable_elasticities(m, variables=st, normalized=norm)
+                got = mca.variable_elasticities(m, normalized=norm, **kw_state)
                 exp = {"v0": {}, "v1": {"x": n1 * rates["v1"] / x}, "v2": {"y": n2 * rates["v2"] / y}}
                 if case["net"] == "branch":
                     exp["v1b"] = {"x": n1 * rates["v1b"] / x}
@@ -135,7 +150,7 @@ def check(case):
                             return outcome(False, "wrong-elasticity", symptom="wrong-variable-elasticity", detail=f"d{r}/d{v}: {g} expected {e} | {txt}")
             else:
                 to_scan = ["c", "k1", "k2"] + (["kb"] if case["net"] == "branch" else [])
-                got = mca.parameter_elasticities(m, to_scan=to_scan, variables=st, normalized=norm)
+                got = mca.parameter_elasticities(m, to_scan=to_scan, normalized=norm, **kw_state)
                 pv = {"c": c, "k1": k1, "k2": k2, "kb": kb}
                 exp = {"v0": {"c": 1.0}, "v1": {"k1": x**n1}, "v2": {"k2": y**n2}}
                 if case["net"] == "branch":
